@@ -329,6 +329,8 @@ class Model:
             return "ok"
         par = parent(p)
         if par not in ip:
+            if par in self.ipaths(self.basis):
+                self.flags.add("parent-removed-but-committed")
             return "refuse"
         self._certain(ip[par], p)
         if self.inv[ip[par]][2] != "directory":
@@ -621,6 +623,15 @@ class Model:
                     p not in self.idx and self.kind(p) is not None
                     for p in self.gbasis):
                 self.flags.add("committed-path-taken-by-unversioned-file")
+            if self.fmt == "bzr":
+                ip = self.ipaths()
+                for p, t in self.ipaths(self.basis).items():
+                    if t != ROOT and self.basis[t][2] == "directory" and \
+                            self.ichildren(t, self.basis) and \
+                            self.kind(p) not in (None, "directory") and \
+                            ip.get(p) != t:
+                        self.flags.add(
+                            "committed-directory-path-taken-by-file")
             if self.fmt == "git":
                 blocked = [p for p in self.idx if p in self.gbasis and
                            self.kind(p) == "directory" and self.children(p)]
@@ -761,6 +772,10 @@ class Model:
                 return None
         if self.fmt == "git":
             if not self.real_dir(parent(p)):
+                return None
+            if any(self.kind(q) == "directory" for q in self.idx):
+                # an index entry that became a directory shows up in every
+                # filtered comparison
                 return None
             if self.git_pairs(p):
                 # similarity-based rename / copy detection would tie p to
